@@ -435,7 +435,9 @@ def calculate_1d_frequencies(
             raise ValueError(
                 f"Weights must have the same shape as data, {weights_array.shape} != {data_array.shape}"
             )
-        equal_weights = weights_array.max() - weights_array.min() == 0
+        equal_weights = (
+            weights_array.size == 0 or weights_array.max() - weights_array.min() == 0
+        )
     else:
         weights_array = np.ones_like(data_array, dtype=int)
         equal_weights = True
@@ -469,6 +471,10 @@ def calculate_1d_frequencies(
 
         frequencies[xbin] = weights_array[start:stop].sum()
         errors2[xbin] = (weights_array[start:stop] ** 2).sum()
+
+    # Nothing can be missed if there is no data (even if there are no bins yet)
+    if bins.shape[0] == 0 and data_array.size == 0:
+        underflow = overflow = weights_array.sum()
 
     # Underflow and overflow don't make sense for unconsecutive binning.
     if not _bin_utils.is_consecutive(bins):
